@@ -28,7 +28,7 @@ from bv.refs import asn1ref as R
 
 PROPERTY = "C03"
 LEVEL = "exploration"
-BUDGET = {"quick": 55.0, "thorough": 840.0}
+BUDGET = {"quick": 95.0, "thorough": 1200.0}
 RULE = ("for every registry entry (service choice -> class) and every Sequence/Choice/SequenceOf/ListOf/ArrayOf/Any class "
         "reachable from apdu and basetypes: all shapes inside the bound, graded by size (optional pattern: distance from the "
         "nearer of none/all present; +1 per list item; +1 for a non-empty Any) and taken smallest first = "
